@@ -38,7 +38,7 @@ def _classify_const(kwargs, rp):
 
 def _classify_enum(kwargs, rp):
     import h_c13 as H
-    pool = H.IDENTS3 if kwargs['pool'] == 3 else H.IDENTS2
+    pool = H.POOLS[kwargs['pool']]
     n = kwargs['n']
     idents = [pool[kwargs['i%d' % k]] for k in range(n)]
     if H._shared_words(idents) == 0 and 'name of' in rp.get('result', ''):
@@ -99,31 +99,41 @@ def conditions(tier):
             bounds='2 members; identifiers of 2-3 words over {FOO,BAR,A}; values: every integer; '
                    'private flags, bitfield, typedef/tag form symbolic',
             finding_classifier=_classify_enum))
-    # three members, identifiers of 2 words over {FOO,BAR,BAZ,A}
-    for i0 in range(0, len(H.IDENTS2), 4 if tier == 'quick' else 1):
+    # three members, identifiers FOO_<1..2 words over {FOO,BAR,A}> (shared prefixes of 1 and 2 words)
+    nF = len(H.IDENTSF)
+    for i0 in range(nF):
         sym = [('i1', 'int'), ('i2', 'int')] + vals + [('bitfield', 'bool')]
-        fixed = dict(pool=2, n=3, i0=i0, i3=0, p3=False, typedef=True)
+        fixed = dict(pool=4, n=3, i0=i0, i3=0, p3=False, typedef=True)
         if tier == 'quick':
             fixed.update(p0=False, p1=False, p2=False)
         else:
             sym += [('p0', 'bool'), ('p1', 'bool'), ('p2', 'bool')]
         conds.append(ch.Cond(
             'h_c13', 'enum_members', sym,
-            pre=['0 <= i1 < %d' % len(H.IDENTS2), '0 <= i2 < %d' % len(H.IDENTS2)],
+            pre=['0 <= i1 < %d' % nF, '0 <= i2 < %d' % nF],
             fixed=fixed, timeout=170 if tier == 'quick' else 1200,
-            name='enum[3 members, first=%s]' % H.IDENTS2[i0],
-            bounds='3 members; identifiers of 2 words over {FOO,BAR,BAZ,A}; values: every integer',
+            name='enum[3 members, first=%s]' % H.IDENTSF[i0],
+            bounds='3 members; identifiers FOO_<1-2 words over {FOO,BAR,A}>; values: every integer',
             finding_classifier=_classify_enum))
     if tier == 'thorough':
+        # three members with two namespace prefixes (no-shared-word cases), 2-word identifiers
         for i0 in range(len(H.IDENTS2)):
             conds.append(ch.Cond(
                 'h_c13', 'enum_members',
+                [('i1', 'int'), ('i2', 'int')] + vals + [('bitfield', 'bool'), ('p0', 'bool'), ('p1', 'bool'), ('p2', 'bool')],
+                pre=['0 <= i1 < %d' % len(H.IDENTS2), '0 <= i2 < %d' % len(H.IDENTS2)],
+                fixed=dict(pool=2, n=3, i0=i0, i3=0, p3=False, typedef=True), timeout=1200,
+                name='enum[3 members/2 prefixes, first=%s]' % H.IDENTS2[i0],
+                bounds='3 members; identifiers of 2 words over {FOO,BAR,BAZ,A}; values: every integer',
+                finding_classifier=_classify_enum))
+        for i0 in range(nF):
+            conds.append(ch.Cond(
+                'h_c13', 'enum_members',
                 [('i1', 'int'), ('i2', 'int'), ('i3', 'int')] + vals + [('bitfield', 'bool')],
-                pre=['0 <= i1 < %d' % len(H.IDENTS2), '0 <= i2 < %d' % len(H.IDENTS2),
-                     '0 <= i3 < %d' % len(H.IDENTS2)],
-                fixed=dict(pool=2, n=4, i0=i0, p0=False, p1=False, p2=False, p3=False, typedef=True),
-                timeout=1500, name='enum[4 members, first=%s]' % H.IDENTS2[i0],
-                bounds='4 members; identifiers of 2 words over {FOO,BAR,BAZ,A}; values: every integer',
+                pre=['0 <= i1 < %d' % nF, '0 <= i2 < %d' % nF, '0 <= i3 < %d' % nF],
+                fixed=dict(pool=4, n=4, i0=i0, p0=False, p1=False, p2=False, p3=False, typedef=True),
+                timeout=2400, name='enum[4 members, first=%s]' % H.IDENTSF[i0],
+                bounds='4 members; identifiers FOO_<1-2 words over {FOO,BAR,A}>; values: every integer',
                 finding_classifier=_classify_enum))
     return conds
 
